@@ -9,6 +9,7 @@ import (
 	"net/http"
 	"net/http/httptest"
 	"net/url"
+	"sort"
 	"strings"
 
 	"github.com/julienschmidt/httprouter"
@@ -339,7 +340,22 @@ func runC14Race(_ *Env, rc *RunCtx) {
 	t := rc.CaseTape
 	env := NewEnv(rc.T, EnvOpts{NoWarm: true})
 	defer env.Close()
-	if _, err := env.ApplyConfig(plainCfg); err != nil {
+	// half of the bursts run against a configuration with permissions (a union
+	// that lists a traverse BEFORE a plain relation, an intersection, a negation):
+	// the namespace AST is shared by all requests, and nothing a request does
+	// with it may be visible to another
+	raceCfg := plainCfg
+	withPerms := t.Bool(1, 2)
+	if withPerms {
+		ty := []TypeRef{{NS: "N1"}, {NS: "N0", Rel: "r0"}}
+		// (Go AST or OPL with minimal parentheses: the operands are direct children of the union)
+		raceCfg = &Config{Enc: []int{EncAST, EncOPLMin}[t.Choose(2)], NS: []*NSDef{{Name: "N1", Rels: []*RelDef{{Name: "r0", Types: []TypeRef{{NS: "N1"}}}, {Name: "r1", Types: []TypeRef{{NS: "N1"}}}}},
+			{Name: "N0", Rels: []*RelDef{{Name: "r0", Types: ty}, {Name: "r1", Types: []TypeRef{{NS: "N0"}}},
+				{Name: "p0", Rewrite: &Expr{Kind: ExOr, Children: []*Expr{{Kind: ExTraverse, Rel: "r1", Computed: "p0", ViaPermits: true}, {Kind: ExIncludes, Rel: "r0"}}}},
+				{Name: "p1", Rewrite: &Expr{Kind: ExAnd, Children: []*Expr{{Kind: ExPermits, Rel: "p0"}, {Kind: ExNot, Children: []*Expr{{Kind: ExTraverse, Rel: "r1", Computed: "r0"}}}}}}}}}}
+		rc.Count("probe_burst_on_config_with_permissions", 1)
+	}
+	if _, err := env.ApplyConfig(raceCfg); err != nil {
 		rc.T.Fatalf("config: %v", err)
 	}
 	deps := env.Deps
@@ -368,8 +384,30 @@ func runC14Race(_ *Env, rc *RunCtx) {
 			tu.NS = fmt.Sprintf("nope%d", i)
 			tu2.NS = fmt.Sprintf("nope%db", i)
 			rc.Count("probe_unknown_namespace_in_burst", 1)
+		} else if withPerms && t.Bool(2, 3) {
+			tu.NS, tu.Rel = "N0", []string{"p0", "p1"}[t.Choose(2)]
+			tu2.NS, tu2.Rel = "N0", []string{"p0", "p1"}[t.Choose(2)]
 		}
-		switch k := t.Choose(6); {
+		k := t.Choose(7)
+		if withPerms && i < 2 {
+			// at least two requests evaluate a permission of the shared configuration
+			k = []int{1, 5, 2}[t.Choose(3)]
+			tu.NS, tu.Rel = "N0", []string{"p0", "p1"}[t.Choose(2)]
+			tu2.NS, tu2.Rel = "N0", []string{"p0", "p1"}[t.Choose(2)]
+		}
+		switch {
+		case k == 6:
+			// an incomplete check: a different key is missing in every request
+			v := tupleURL(tu)
+			miss := []string{"namespace", "object", "relation", "subject_id"}[i%4]
+			v.Del(miss)
+			if miss == "subject_id" {
+				v.Del("subject_set.namespace")
+				v.Del("subject_set.object")
+				v.Del("subject_set.relation")
+			}
+			target = "/relation-tuples/check/openapi?" + v.Encode()
+			rc.Count("probe_incomplete_check_in_burst", 1)
 		case k == 0 && !wrote:
 			wrote = true // at most one writer: a second one would wait on pop's transaction mutex, which is not a scheduling point
 			h, method, target = wr, "PUT", "/admin/relation-tuples"
@@ -401,8 +439,15 @@ func runC14Race(_ *Env, rc *RunCtx) {
 		}})
 	}
 	et := rc.ExecTape(0)
+	astBefore := configFingerprint(env)
 	r := env.Exec(et, reqs, NoFaults())
 	rc.Rec.Execs += n
+	// the namespace configuration is shared by all requests: none of them may
+	// change it (a change is what the next request would see)
+	if astAfter := configFingerprint(env); astAfter != astBefore {
+		rc.Violate("shared-config-mutated", "race-burst", "the namespace configuration served by the manager differs after the burst of requests", map[string]any{"burst": desc, "before": astBefore, "after": astAfter}, 0, et)
+		return
+	}
 	rc.Rec.NonTrivial = true
 	rc.Rec.CaseHash = fmt.Sprintf("%016x", fnv64(fmt.Sprint(desc), 0))
 	rc.Count("concurrent_requests", n)
@@ -622,4 +667,35 @@ func runC14Handlers(env *Env, rc *RunCtx) {
 		}
 		rc.Rec.Sample = map[string]any{"requests_and_alone_results": ds, "chain_length": k}
 	}
+}
+
+// configFingerprint renders the namespaces the manager serves - relations,
+// types and rewrites in their stored order (normFromKeto keeps the order of
+// children; it is not flattened here).
+func configFingerprint(env *Env) string {
+	nm, err := env.Reg.Config(env.Ctx).NamespaceManager()
+	if err != nil {
+		return "error: " + err.Error()
+	}
+	nn, err := nm.Namespaces(env.Ctx)
+	if err != nil {
+		return "error: " + err.Error()
+	}
+	sort.Slice(nn, func(i, j int) bool { return nn[i].Name < nn[j].Name })
+	var sb strings.Builder
+	for _, n := range nn {
+		fmt.Fprintf(&sb, "%s{", n.Name)
+		for _, r := range n.Relations {
+			fmt.Fprintf(&sb, "%s:", r.Name)
+			for _, ty := range r.Types {
+				fmt.Fprintf(&sb, "%s#%s|", ty.Namespace, ty.Relation)
+			}
+			if r.SubjectSetRewrite != nil {
+				sb.WriteString("=" + normFromKeto(r.SubjectSetRewrite).String())
+			}
+			sb.WriteString(";")
+		}
+		sb.WriteString("} ")
+	}
+	return sb.String()
 }
